@@ -58,7 +58,7 @@ type Save struct {
 type Pick struct {
 	Save  int    `json:"save"`  // index into Saves
 	Idx   int    `json:"idx"`   // index into that save's injectable calls, modulo their number
-	Errno string `json:"errno"` // ENOSPC | EIO
+	Errno string `json:"errno"` // ENOSPC | EIO | EINTR
 }
 
 // Scenario is one case.
@@ -124,7 +124,17 @@ func genSize(t *rapid.T, tier, kind, label string) (n, l int) {
 		if l > maxLen {
 			l = maxLen
 		}
-		return total/l + 1, l
+		n = total/l + 1
+		// One write(2) per rule line / a quadratic cost per lease: bound the
+		// number of items, not the bytes.
+		maxN := 8_000
+		if tier == "thorough" {
+			maxN = 150_000
+		}
+		if n > maxN {
+			n = maxN
+		}
+		return n, l
 	}
 }
 
@@ -190,7 +200,7 @@ func Gen(t *rapid.T, tier string) any {
 			sc.Inject = append(sc.Inject, Pick{
 				Save:  rapid.IntRange(0, nSaves-1).Draw(t, "inj_save"),
 				Idx:   rapid.IntRange(0, 40).Draw(t, "inj_idx"),
-				Errno: rapid.SampledFrom([]string{"ENOSPC", "EIO"}).Draw(t, "inj_errno"),
+				Errno: rapid.SampledFrom([]string{"ENOSPC", "EIO", "ENOSPC", "EIO", "EINTR"}).Draw(t, "inj_errno"),
 			})
 		}
 	}
@@ -510,6 +520,8 @@ type checker struct {
 	written   map[[2]int][][2]int64
 	memoCrash map[int][2]int
 	memoView  [2]int
+	cands     []int
+	candGen   int
 	loaderN   int
 	baseline  bool
 	injected  *injectSpec
@@ -537,12 +549,18 @@ func (ck *checker) content(ino *crashfs.Inode, off, n int64) ([]byte, error) {
 		return nil, fmt.Errorf("harness: content model: save %d writes [%d,%d) but its new version is %s", ck.curSave, off, off+n, v)
 	}
 	key := [2]int{ck.curSave, ino.ID}
-	for _, w := range ck.written[key] {
+	ws := ck.written[key]
+	for _, w := range ws {
 		if off < w[1] && w[0] < off+n {
 			return nil, fmt.Errorf("harness: content model: save %d rewrites bytes [%d,%d) of inode %d", ck.curSave, off, off+n, ino.ID)
 		}
 	}
-	ck.written[key] = append(ck.written[key], [2]int64{off, off + n})
+	if l := len(ws); l > 0 && ws[l-1][1] == off {
+		// Sequential writes (the normal case) keep the list at one range.
+		ws[l-1][1] = off + n
+	} else {
+		ck.written[key] = append(ws, [2]int64{off, off + n})
+	}
 	return v.data[off : off+n], nil
 }
 
@@ -742,7 +760,10 @@ func (ck *checker) boundary(at int) error {
 		ck.memoView = key
 	}
 	// (b) power loss now.
-	for _, id := range ck.disk.Candidates(ck.dest) {
+	if ck.candGen != ck.disk.NsGen || ck.cands == nil {
+		ck.cands, ck.candGen = ck.disk.Candidates(ck.dest), ck.disk.NsGen
+	}
+	for _, id := range ck.cands {
 		if id < 0 {
 			if ck.matchPower(true, nil) < 0 {
 				return kernel.Violationf("missing-after-power-loss",
@@ -781,6 +802,7 @@ func (ck *checker) replay(init map[string][]byte) error {
 	ck.memoView = [2]int{-1, -1}
 	ck.prev = ck.versions[0]
 	otherTid := false
+	seq := 0 // number of the syscall among those that concern the watched tree
 
 	for i, ev := range r.trace.Events {
 		eff, err := ck.disk.Apply(i, ev, r.norm)
@@ -818,9 +840,19 @@ func (ck *checker) replay(init map[string][]byte) error {
 			continue
 		}
 		if ev.Tid != r.trace.MainTid {
+			// Another thread of the helper (baseline runs trace all of them).
+			// Where its calls fall between the main thread's is up to the
+			// scheduler, so they stay out of the event log unless they change
+			// the model - which the real save paths never do (the runtime's
+			// finalizer thread closing a forgotten descriptor is the only
+			// thing seen here).
+			if !eff.Touched {
+				continue
+			}
 			otherTid = true
 		}
-		ck.c.Eventf("%s #%d %s", ck.label, i, eff.Desc)
+		seq++
+		ck.c.Eventf("%s #%d %s", ck.label, seq, eff.Desc)
 		if ck.inSave && ck.baseline && ev.Tid == r.trace.MainTid && injectableCalls[ev.Name] && ev.Errno == "" {
 			ck.inj = append(ck.inj, injectable{save: ck.curSave - 1, call: ev.Name, ord: ev.Ord, desc: eff.Desc})
 		}
@@ -832,7 +864,7 @@ func (ck *checker) replay(init map[string][]byte) error {
 				ck.c.Probe("temp_next_to_dest")
 			}
 		}
-		if err = ck.boundary(i); err != nil {
+		if err = ck.boundary(seq); err != nil {
 			return err
 		}
 	}
@@ -954,6 +986,16 @@ func (ck *checker) finalCompare() error {
 
 // Run executes one scenario.
 func Run(t *testing.T, scAny any, c *kernel.Ctx) error {
+	err := run(t, scAny, c)
+	if _, ok := err.(*kernel.Violation); err != nil && !ok {
+		// Harness trouble: say which case it was.
+		raw, _ := json.Marshal(scAny)
+		err = fmt.Errorf("%w; scenario=%s", err, raw)
+	}
+	return err
+}
+
+func run(t *testing.T, scAny any, c *kernel.Ctx) error {
 	sc := scAny.(*Scenario)
 	if len(sc.Saves) == 0 || len(sc.SubsetSeeds) == 0 {
 		return nil
@@ -1078,6 +1120,9 @@ func tail(s string, n int) string {
 	return s
 }
 
+// maxWhen is the largest ordinal strace's inject=...:when= accepts.
+const maxWhen = 65535
+
 type plannedInject struct {
 	injectable
 	errno string
@@ -1094,7 +1139,7 @@ func injectionPlan(sc *Scenario, inj []injectable) []plannedInject {
 	seen := map[string]bool{}
 	add := func(x injectable, nth int, errno string) {
 		k := x.call + "/" + strconv.Itoa(x.ord)
-		if seen[k] {
+		if seen[k] || x.ord > maxWhen {
 			return
 		}
 		seen[k] = true
@@ -1102,7 +1147,12 @@ func injectionPlan(sc *Scenario, inj []injectable) []plannedInject {
 	}
 	if sc.InjectAll {
 		for s := range sc.Saves {
-			l := bySave[s]
+			var l []injectable
+			for _, x := range bySave[s] {
+				if x.ord <= maxWhen {
+					l = append(l, x)
+				}
+			}
 			writes := 0
 			for _, x := range l {
 				if x.call == "write" {
@@ -1111,7 +1161,7 @@ func injectionPlan(sc *Scenario, inj []injectable) []plannedInject {
 			}
 			wi := 0
 			for i, x := range l {
-				errno := []string{"ENOSPC", "EIO"}[(i+s)%2]
+				errno := []string{"ENOSPC", "EIO", "ENOSPC", "EIO", "ENOSPC", "EIO", "EINTR"}[(i+s)%7]
 				if x.call == "write" {
 					wi++
 					// First, second, middle and last write of a long run.
@@ -1127,6 +1177,10 @@ func injectionPlan(sc *Scenario, inj []injectable) []plannedInject {
 	}
 	for _, p := range sc.Inject {
 		l := bySave[p.Save]
+		// strace's when= takes at most 65535.
+		for len(l) > 0 && l[len(l)-1].ord > maxWhen {
+			l = l[:len(l)-1]
+		}
 		if len(l) == 0 {
 			continue
 		}
@@ -1172,7 +1226,7 @@ var Prop = &kernel.Property{
 		"syscall error injection is strace's: the call is not executed and returns the error; partial writes are not injected",
 		"sizes: quick up to 2 MiB, thorough up to 32 MiB (configuration 8 MiB)",
 	},
-	FaultKinds: []string{"power_loss_boundary", "crash_state", "inject_ENOSPC", "inject_EIO"},
+	FaultKinds: []string{"power_loss_boundary", "crash_state", "inject_ENOSPC", "inject_EIO", "inject_EINTR"},
 	ProbeNames: []string{
 		"temp_in_tmpdir", "temp_next_to_dest", "save_from_absent", "multi_save", "dest_replaced_by_rename",
 		"version_empty", "version_ge_1MiB", "upgrade_rewrote_config", "migrate_wrote_leases", "save_without_change",
